@@ -32,6 +32,10 @@ def floor(tier):
 def cases(tier, rng):
     out = []
     n = 48 if tier == "quick" else 600
+    # anchors: the three open findings are reached in every run (F-14 g1 heavy, F-21 g1 light, F-24 F2 light at very low x)
+    for k, (kind_, heavy_, x_) in enumerate((("g1", "charm", 0.05), ("g1", "light", 0.05), ("F2", "light", 6e-4))):
+        out.append(dict(id=f"c08-a{k}", kind=kind_, proc="NC", flavour="charm", heavy=heavy_, pto=2, m=1.4, x=x_, proj="electron",
+                        pdf=pdfs.SmoothPDF.random(rng), two=False, mtop=170.0, timeout=900))  # fmt: skip
     combos = [("F2", "NC"), ("FL", "NC"), ("F2", "EM"), ("F2", "CC"), ("FL", "CC"), ("F3", "CC"), ("g1", "NC"), ("FL", "EM")]
     for i in range(n):
         kind, proc = combos[i % len(combos)]
@@ -41,9 +45,18 @@ def cases(tier, rng):
             pto = 1
         heavy = flavour if (i // len(combos)) % 2 == 0 or proc == "CC" else "light"
         m = float(rng.uniform(1.2, 1.8)) if flavour == "charm" else float(rng.uniform(4.0, 5.0))
-        x = float(cards.pick(rng, [cards.logu(rng, 2e-3, 0.05), float(rng.uniform(0.05, 0.5))]))
+        x = float(cards.pick(rng, [cards.logu(rng, 2e-3, 0.05), float(rng.uniform(0.05, 0.5)), cards.logu(rng, 1e-4, 2e-3)]))
+        # two massive quarks at once (plain FFNS/FFN0, NfFF=4 with an artificially light 'top' just above the bottom): the sum over
+        # heavy quarks in <kind>_total must converge too; Q2/m2 then refers to the heavier of the two
+        two = bool(i % 6 == 5)
+        if two:
+            kind, proc = ("F2" if (i // 6) % 3 else "FL"), cards.pick(rng, ["NC", "EM"])
+            pto = 2 if (i // 6) % 2 else 1
+            flavour, heavy = "bottom", "total"
+            m = float(rng.uniform(4.0, 5.0))
         out.append(dict(id=f"c08-{i}", kind=kind, proc=proc, flavour=flavour, heavy=heavy, pto=pto, m=m, x=x,
-                        proj=cards.pick(rng, ["neutrino", "antineutrino"]) if proc == "CC" else "electron", pdf=pdfs.SmoothPDF.random(rng), timeout=900))  # fmt: skip
+                        proj=cards.pick(rng, ["neutrino", "antineutrino"]) if proc == "CC" else "electron", pdf=pdfs.SmoothPDF.random(rng), two=two,
+                        mtop=float(m * rng.uniform(1.3, 2.2)), timeout=900))  # fmt: skip
     return out
 
 
@@ -55,18 +68,24 @@ def run_case(case):
     base = dict(PTO=case["pto"], NfFF=nfff, mc=1.4, mb=4.6, mt=172.0)
     base[mk] = m
     name = f"{kind}_{case['heavy']}"
-    xg = cards.grid(8, 7, x_min=1e-3)
+    schemes = ("FONLL-FFNS", "FONLL-FFN0")
+    if case.get("two"):
+        schemes = ("FFNS", "FFN0")
+        base["mt"] = case["mtop"]
+        m = case["mtop"]  # the scan variable is Q2/m2 of the heavier massive quark
+    xg = cards.grid(10, 7, x_min=3e-5)
     xis = [xi for xi in XIS if not (kind == "g1" and xi > 1e3)]
     if kind == "g1":
         xis = [1e2, 3e2, 1e3]
     pts = [dict(x=case["x"], Q2=xi * m * m) for xi in xis]
     ob = cards.observables({name: pts, f"F2_{case['heavy']}": pts}, xgrid=xg, deg=3, prDIS=case["proc"], ProjectileDIS=case["proj"])
     outs = {}
-    for sch in ("FONLL-FFNS", "FONLL-FFN0"):
+    for sch in schemes:
         outs[sch] = run.run(cards.theory(FNS=sch, **base), ob)
     pdf = pdfs.make(case["pdf"])
     fmat = np.array([[pdf.f(pid, xj) for xj in xg] for pid in cards.PIDS])
     viol, nontrivial, classes = [], set(), {case["proc"] if case["proc"] != "EM" else "NC", flavour}
+    xc = "vlowx" if case["x"] < 2e-3 else ("lowx" if case["x"] < 0.05 else "midx")
     compared, margin = 0, 0.0
     traj = {}
     # LO parton-model size for normalisation (F2 of the same heavyness, massless scheme part)
@@ -74,15 +93,15 @@ def run_case(case):
         key = (o, 0, 0, 0)
         ent, con = [], []
         for i, xi in enumerate(xis):
-            a = np.asarray(outs["FONLL-FFNS"][name][i].orders[key][0])
-            b = np.asarray(outs["FONLL-FFN0"][name][i].orders[key][0])
-            n0 = max(run.absmax(outs["FONLL-FFN0"][f"F2_{case['heavy']}"][i].orders[(0, 0, 0, 0)][0]), case["x"] * 0.1)
+            a = np.asarray(outs[schemes[0]][name][i].orders[key][0])
+            b = np.asarray(outs[schemes[1]][name][i].orders[key][0])
+            n0 = max(run.absmax(outs[schemes[1]][f"F2_{case['heavy']}"][i].orders[(0, 0, 0, 0)][0]), case["x"] * 0.1)
             N = run.absmax(a) + run.absmax(b) + n0
             ent.append(run.absmax(a - b) / N)
             Nc = float(np.sum(np.abs(a * fmat))) + float(np.sum(np.abs(b * fmat))) + n0 * float(np.max(np.abs(fmat)))
             con.append(abs(float(np.sum((a - b) * fmat))) / Nc)
             if i == 0 and run.absmax(a) > 0:
-                nontrivial.add(f"{kind}|{case['proc']}|{flavour}|{case['heavy']}|o{o}|{'lowx' if case['x'] < 0.05 else 'midx'}")
+                nontrivial.add(f"{kind}|{case['proc']}|{flavour}|{case['heavy']}|o{o}|{'vlowx' if case['x'] < 2e-3 else ('lowx' if case['x'] < 0.05 else 'midx')}")
         traj[o] = dict(entry=ent, contracted=con)
         classes.add(f"o{o}")
         for label, seq, K in (("entrywise", ent, K_ENTRY), ("contracted", con, K_CONTRACTED)):
@@ -93,7 +112,7 @@ def run_case(case):
                 compared += 1
                 mg = d / bound
                 if mg > 1:
-                    viol.append(dict(sig=f"no-decay|{kind}|{case['proc']}|{case['heavy'] if case['heavy']=='light' else 'heavy'}|o{o}", what=f"{name} {case['proc']} order {o} x={case['x']:.4g} m={m:.4g}: {label} |FFNS-FFN0|/N = {d:.3g} at Q2/m2={xi:g} exceeds {K:g} ln^2(xi)/xi = {bound:.3g}; trajectory {['%.2e' % v for v in seq]} over xi={xis}",
+                    viol.append(dict(sig=f"no-decay|{kind}|{case['proc']}|{case['heavy'] if case['heavy']=='light' else 'heavy'}|o{o}|{xc}|xi{xi:g}", what=f"{name} {case['proc']} order {o} x={case['x']:.4g} m={m:.4g}: {label} |FFNS-FFN0|/N = {d:.3g} at Q2/m2={xi:g} exceeds {K:g} ln^2(xi)/xi = {bound:.3g}; trajectory {['%.2e' % v for v in seq]} over xi={xis}",
                                      detail=dict(trajectory=seq, xis=xis)))  # fmt: skip
                     break
                 margin = max(margin, mg)
@@ -105,16 +124,16 @@ def run_case(case):
                     if da > 100 * FLOOR:
                         compared += 1
                         if not db <= da / 2.0 + FLOOR:
-                            viol.append(dict(sig=f"no-decay-decade|{kind}|{case['proc']}|{case['heavy'] if case['heavy']=='light' else 'heavy'}|o{o}", what=f"{name} {case['proc']} order {o} x={case['x']:.4g} m={m:.4g}: {label} |FFNS-FFN0|/N goes {da:.3g} -> {db:.3g} between Q2/m2={xa:g} and {xb:g} (trajectory {['%.2e' % v for v in seq]})"))
+                            viol.append(dict(sig=f"no-decay-decade|{kind}|{case['proc']}|{case['heavy'] if case['heavy']=='light' else 'heavy'}|o{o}|{xc}|xi{xb:g}", what=f"{name} {case['proc']} order {o} x={case['x']:.4g} m={m:.4g}: {label} |FFNS-FFN0|/N goes {da:.3g} -> {db:.3g} between Q2/m2={xa:g} and {xb:g} (trajectory {['%.2e' % v for v in seq]})"))
                             break
             if len(seq) == 5 and seq[0] > 30 * FLOOR:
                 compared += 1
                 if not seq[3] <= seq[0] / 30.0 + FLOOR:
-                    viol.append(dict(sig=f"no-decay-ratio|{kind}|{case['proc']}|{case['heavy'] if case['heavy']=='light' else 'heavy'}|o{o}", what=f"{name} {case['proc']} order {o}: {label} difference went from {seq[0]:.3g} (xi=1e2) to {seq[3]:.3g} (xi=1e5): drop < 30"))
+                    viol.append(dict(sig=f"no-decay-ratio|{kind}|{case['proc']}|{case['heavy'] if case['heavy']=='light' else 'heavy'}|o{o}|{xc}", what=f"{name} {case['proc']} order {o}: {label} difference went from {seq[0]:.3g} (xi=1e2) to {seq[3]:.3g} (xi=1e5): drop < 30"))
             if kind == "g1" and len(seq) == 3 and seq[0] > 30 * FLOOR:
                 compared += 1
                 # bounded form on the reachable range: a decade in xi must shrink the difference by >= 3
                 if not seq[2] <= seq[0] / 3.0 + FLOOR:
-                    viol.append(dict(sig=f"no-decay-ratio|g1|{case['proc']}|{case['heavy'] if case['heavy']=='light' else 'heavy'}|o{o}", what=f"{name} order {o}: {label} difference {seq[0]:.3g} at xi=1e2 -> {seq[2]:.3g} at xi=1e3: drop < 3 (trajectory {['%.2e' % v for v in seq]})"))
+                    viol.append(dict(sig=f"no-decay-ratio|g1|{case['proc']}|{case['heavy'] if case['heavy']=='light' else 'heavy'}|o{o}|{xc}", what=f"{name} order {o}: {label} difference {seq[0]:.3g} at xi=1e2 -> {seq[2]:.3g} at xi=1e3: drop < 3 (trajectory {['%.2e' % v for v in seq]})"))
     sample = dict(obs=name, process=case["proc"], m=m, x=case["x"], xis=xis, trajectories={str(o): {k: ["%.2e" % v for v in t[k]] for k in t} for o, t in traj.items()})
     return dict(violations=viol, compared=compared, nontrivial=sorted(nontrivial), classes=sorted(classes), margin=margin, sample=sample)
